@@ -1,6 +1,19 @@
 import IV.Model.Proto
 import IV.Model.Rpm
+import IV.Model.RpmRef
+import IV.Model.RpmLex
 open IV IV.Proto IV.Rpm
+
+/-- UTF-8 code units of one code point (driver glue: the harness sends code points, RPM sees
+bytes).  Written out here, independently of `String.utf8EncodeChar`, and NOT part of the model:
+the theorem `vercmp_eq_reference` holds for every encoding that keeps ASCII and maps the rest to
+non-empty runs of bytes ≥ 128. -/
+def utf8 (c : Char) : List Nat :=
+  let n := c.toNat
+  if n < 0x80 then [n]
+  else if n < 0x800 then [0xC0 + n / 0x40, 0x80 + n % 0x40]
+  else if n < 0x10000 then [0xE0 + n / 0x1000, 0x80 + (n / 0x40) % 0x40, 0x80 + n % 0x40]
+  else [0xF0 + n / 0x40000, 0x80 + (n / 0x1000) % 0x40, 0x80 + (n / 0x40) % 0x40, 0x80 + n % 0x40]
 
 def optB : Option Bool → String
   | none => "E" | some true => "1" | some false => "0"
@@ -15,12 +28,34 @@ def parseEvrs : List String → Option (List Evr)
 
 def showEvr (x : Evr) : String := s!"{x.epoch}\t{encStr x.version}\t{encStr x.release}"
 
+def showTok : Tok → String
+  | .tilde => "~"
+  | .caret => "^"
+  | .alpha s => "a" ++ String.ofList s
+  | .num s => "n" ++ String.ofList s
+
 def handle (fs : List String) : String :=
   match fs with
   | ["vc", a, b] =>
     match decStr a, decStr b with
     | some a, some b => toString (vercmp a b)
     | _, _ => "bad-op"
+  | ["ref", a, b] =>
+    match decStr a, decStr b with
+    | some a, some b => toString (Reference.rpmvercmp (a.flatMap utf8) (b.flatMap utf8))
+    | _, _ => "bad-op"
+  | ["tok", a] =>
+    match decStr a with
+    | some a => encList ((tokens (norm a)).map showTok)
+    | none => "bad-op"
+  | ["lex", a, b] =>
+    match decStr a, decStr b with
+    | some a, some b => toString (lexCmpTok (tokens (norm a)) (tokens (norm b)))
+    | _, _ => "bad-op"
+  | ["u8", a] =>
+    match decStr a with
+    | some a => encList ((a.flatMap utf8).map toString)
+    | none => "bad-op"
   | ["evr", e1, v1, r1, e2, v2, r2] =>
     match parseEvrs [e1, v1, r1, e2, v2, r2] with
     | some [x, y] => toString (evrCmp x y)
